@@ -1,5 +1,7 @@
 #!/usr/bin/env python3
 """mutcheck.py <prop> <file> <old> <new> : apply a textual mutation to /repo, run the check, restore."""
+import os as _os
+_os.environ["VF_NO_EVIDENCE"] = "1"
 import subprocess, sys
 prop, path, old, new = sys.argv[1:5]
 p = "/repo/" + path
